@@ -58,6 +58,7 @@ type World struct {
 	ValCfg        *config.ValidationConfig
 	FirstCeremony int64
 	Mempool       *config.Mempool
+	index         map[common.Address]int
 }
 
 func init() {
@@ -98,12 +99,24 @@ func NewWorld(seed int64, n int) *World {
 
 // Name returns the short role name of an address ("k0".."kN") or its hex when unknown.
 func (w *World) Name(a common.Address) string {
-	for i, x := range w.Addrs {
-		if x == a {
-			return fmt.Sprintf("k%d", i)
-		}
+	if i := w.Index(a); i >= 0 {
+		return fmt.Sprintf("k%d", i)
 	}
 	return a.Hex()
+}
+
+// Index returns the key index of an address, -1 when it is not one of the world's keys.
+func (w *World) Index(a common.Address) int {
+	if w.index == nil {
+		w.index = map[common.Address]int{}
+		for i, x := range w.Addrs {
+			w.index[x] = i
+		}
+	}
+	if i, ok := w.index[a]; ok {
+		return i
+	}
+	return -1
 }
 
 func (w *World) config() *config.Config {
